@@ -258,7 +258,10 @@ redis:
 	if c.redis != nil {
 		var v []byte
 		storedTime, expireTime, v = c.redis.Get(ctx, key)
-		if v != nil { // hit
+		// The redis ttl of a value is relative and is applied when the (queued)
+		// SET is executed, maybe late. The expire time that is stored in the
+		// value decides.
+		if v != nil && time.Now().Before(expireTime) { // hit
 			m, err := unpackCacheMsg(v)
 			if err != nil {
 				c.logger.Err(err).Msg("invalid cache data in redis")
